@@ -215,9 +215,19 @@ def conserved (G H : Hier) : Bool :=
 
 /-! ## C06 (static part) -/
 
-/-- Every table entry names one of the block's successors; every successor is named. -/
+/-- Every table entry names one of the block's successors; every successor — every jump target
+    and every declared back edge — is named by at least one entry. -/
 def tableOK (b : Blk) : Bool :=
-  b.tbl.all (fun p => b.jts.contains p.2) && b.jts.all (fun t => b.tbl.any (·.2 == t))
+  b.tbl.all (fun p => b.jts.contains p.2) && b.jts.all (fun t => b.tbl.any (·.2 == t)) &&
+  b.bes.all (fun t => b.tbl.any (·.2 == t))
+
+/-- "After every renaming": every branching block that had a good table before an edit still
+    has one afterwards. -/
+def tablesPreserved (before after : Hier) : Bool :=
+  after.all fun a => !a.kind.isBranching ||
+    match before.find? (fun b => b.cont == a.cont && b.name == a.name) with
+    | some b => !tableOK b || tableOK a
+    | none => true
 
 def tablesOK (H : Hier) : Bool := H.all fun b => !b.kind.isBranching || tableOK b
 
